@@ -118,7 +118,7 @@ func (a *Element) Prod(b, c ff.Element) ff.Element {
 		s := a.field.logTable.lookup(bb)
 		t := a.field.logTable.lookup(cc)
 
-		a = a.field.logTable.lookupReverse((s + t) % (a.field.Card() - 1))
+		a.val = a.field.logTable.lookupReverse((s + t) % (a.field.Card() - 1)).val
 	} else {
 		a.val = (bb.val.Times(cc.val))
 	}
